@@ -166,6 +166,10 @@ def canon(v, depth=0):
         return ['Obj', canon({k: x for k, x in v.__dict__.items() if not k.startswith('_')}, depth + 1)]
     if isinstance(v, type):
         return '<class %s>' % v.__name__
+    if isinstance(v, core.Opaque):
+        return '<opaque %s>' % v.tag
+    if type(v).__name__ == 'Match' and type(v).__module__ == 're':
+        return '<opaque match>'
     if isinstance(v, models.SymPath):
         return ['path', canon(v.to_str(), depth + 1)]
     import pathlib
